@@ -175,7 +175,9 @@ def _(u):
 def _(u):
     B, N, T = u.dims("B N T")
     u.requires(T >= 2)
-    td = u.td(B, locs=((B, N + 1, 2), "f"), penalty=((B, N + 1), "f"))
+    # the whole state TensorDict with ARBITRARY bookkeeping fields: the reward is a function of the instance (locs, penalty) and the
+    # actions only - get_reward is also called on a freshly reset / re-batched state (evaluation, re-scoring of stored actions)
+    td = state(u, B, N)
     act = u.tensor("actions", (B, T), "i")
     u.requires(u.forall((B, T), lambda b, t: AND(act.at(b, t) >= 0, act.at(b, t) <= N)))
     env = u.obj(F, "PCTSPEnv")
@@ -223,7 +225,7 @@ def _rl(u, what):
         u.requires(T >= 2)
 
         def mk_in(u, B):
-            return {"td": u.td(B, locs=((B, N + 1, 2), "f"), penalty=((B, N + 1), "f")), "actions": u.tensor("actions", (B, T), "i")}
+            return {"td": state(u, B, N), "actions": u.tensor("actions", (B, T), "i")}
 
         def req(u, ins, B):
             a = ins["actions"]
@@ -253,5 +255,5 @@ def _(u):
 
     N = u.dim("N")
     reward_pad_invariant(u, F, "PCTSPEnv._get_reward", "PCTSPEnv",
-                         lambda u, B: u.td(B, locs=((B, N + 1, 2), "f"), penalty=((B, N + 1), "f")), N + 1,
+                         lambda u, B: state(u, B, N), N + 1,
                          extra_requires=lambda u, td, B: u.forall((B,), lambda b: td["penalty"].at(b, 0) == 0))
